@@ -783,6 +783,36 @@ func c04KillAfterRetry(w *c04World, target int, firstKind, usedKind string) {
 // thread had listed that index for the last time; "revoker-saw-index"
 // otherwise (the revoker had the entry in front of it and still left it alive).
 func c04RaceClass(trace []string, writer, prefix string) string {
+	// A third shape, not among the known ones: the creating thread passed its
+	// parent check AFTER the revoker had durably marked that parent as being
+	// revoked. Token entries are served from the cache, so the check itself is
+	// not in the trace; the creator's first write (the accessor index) follows
+	// the check without a scheduling point in between, and the parent's salted
+	// id is in the key of the parent-index write.
+	if prefix == "sys/token/parent/" {
+		firstWrite, parent := -1, ""
+		for i, tr := range trace {
+			if firstWrite < 0 && strings.HasPrefix(tr, writer+":put:sys/token/accessor/") {
+				firstWrite = i
+			}
+			if parent == "" && strings.HasPrefix(tr, writer+":put:"+prefix) {
+				rest := strings.TrimPrefix(tr, writer+":put:"+prefix)
+				if j := strings.Index(rest, "/"); j > 0 {
+					parent = rest[:j]
+				}
+			}
+		}
+		if firstWrite >= 0 && parent != "" {
+			for i, tr := range trace {
+				if tr == "rev:put:sys/token/id/"+parent {
+					if i < firstWrite {
+						return "created-under-parent-already-marked-revoked"
+					}
+					break
+				}
+			}
+		}
+	}
 	lastList, firstPut := -1, -1
 	for i, tr := range trace {
 		if strings.HasPrefix(tr, "rev:list:"+prefix) || strings.HasPrefix(tr, "rev:listpage:"+prefix) {
